@@ -268,10 +268,14 @@ func (g *Gateway) queryHandler(w http.ResponseWriter, r *http.Request) {
 
 			simhook.Yield("gw.op.planned")
 
-			introspectionRes := g.parseIntrospectionQuery(plan, request)
+			introspectionRes := g.parseIntrospectionQuery(plan, request, operation)
 			if introspectionRes != nil {
-				introspectionRes.index = index
-				return introspectionRes, nil
+				// the fields of the internal step are answered here, the services get the other steps
+				plan = planWithoutInternalSteps(plan)
+				if len(plan.RootSteps) == 0 {
+					introspectionRes.index = index
+					return introspectionRes, nil
+				}
 			}
 
 			queryers := g.getQueryers(planningContext, plan.RootSteps)
@@ -287,6 +291,15 @@ func (g *Gateway) queryHandler(w http.ResponseWriter, r *http.Request) {
 			simhook.Yield("gw.op.executed")
 
 			plan.ScrubFields.Clean(result)
+
+			if introspectionRes != nil {
+				if result == nil {
+					result = make(map[string]interface{})
+				}
+				for k, v := range introspectionRes.Data {
+					result[k] = v
+				}
+			}
 
 			simhook.Yield("gw.op.scrubbed")
 
@@ -359,11 +372,24 @@ func defaultValue(v *ast.Value) (interface{}, error) {
 	}
 }
 
-func (g *Gateway) parseIntrospectionQuery(plan *planner.QueryPlan, request *requests.Request) *Result {
+// planWithoutInternalSteps copies the plan (it can be a cached one) leaving out the root steps
+// which the gateway answers itself
+func planWithoutInternalSteps(plan *planner.QueryPlan) *planner.QueryPlan {
+	res := &planner.QueryPlan{ScrubFields: plan.ScrubFields}
+	for _, rs := range plan.RootSteps {
+		if rs.URL != common.InternalServiceName {
+			res.RootSteps = append(res.RootSteps, rs)
+		}
+	}
+	return res
+}
+
+func (g *Gateway) parseIntrospectionQuery(plan *planner.QueryPlan, request *requests.Request, operation *ast.OperationDefinition) *Result {
 	for _, rs := range plan.RootSteps {
 		if rs.URL == common.InternalServiceName {
 			ir := &introspection.IntrospectionResolver{
-				Variables: request.Variables,
+				Variables:    request.Variables,
+				RootTypename: rs.ParentType,
 			}
 
 			introspectionFields := ir.ResolveIntrospectionFields(rs.SelectionSet, g.schema)
